@@ -218,27 +218,35 @@ Lemma check_buf_snoc : forall s es e s1 s2,
 Proof. intros s es e s1 s2 H1 H2. rewrite check_buf_app, H1. simpl. rewrite H2. reflexivity. Qed.
 
 (* the frame part of inv_D: buffers other than the one acted upon *)
-Lemma invD_other : forall s ts s' ts' b e b',
+Lemma invD_other : forall s ts r' p' i' ts' b e b',
   b <> b' ->
   (exists st, check_buf BNew (proj Nat.eqb b' (trace s)) = Some st /\ matches (s, ts) b' st) ->
-  trace s' = trace s ++ [(e, b)] ->
-  pool s' b' = pool s b' -> rc s' b' = rc s b' -> npend b' ts' = npend b' ts ->
-  exists st, check_buf BNew (proj Nat.eqb b' (trace s')) = Some st /\ matches (s', ts') b' st.
+  p' b' = pool s b' -> r' b' = rc s b' -> npend b' ts' = npend b' ts ->
+  exists st, check_buf BNew (proj Nat.eqb b' (trace s ++ [(e, b)])) = Some st /\
+             matches (mkShared r' p' i' (trace s ++ [(e, b)]), ts') b' st.
 Proof.
-  intros s ts s' ts' b e b' Hne [st [Hc Hm]] Htr Hp Hr Hn. exists st. split.
-  - rewrite Htr, proj_snoc_neq; auto.
+  intros s ts r' p' i' ts' b e b' Hne [st [Hc Hm]] Hp Hr Hn. exists st. split.
+  - rewrite proj_snoc_neq; auto.
   - eapply matches_frame; eauto.
 Qed.
 
-Lemma invD_silent : forall s ts s' ts' b',
+Lemma invD_silent : forall s ts r' p' i' ts' b',
   (exists st, check_buf BNew (proj Nat.eqb b' (trace s)) = Some st /\ matches (s, ts) b' st) ->
-  trace s' = trace s ->
-  pool s' b' = pool s b' -> rc s' b' = rc s b' -> npend b' ts' = npend b' ts ->
-  exists st, check_buf BNew (proj Nat.eqb b' (trace s')) = Some st /\ matches (s', ts') b' st.
+  p' b' = pool s b' -> r' b' = rc s b' -> npend b' ts' = npend b' ts ->
+  exists st, check_buf BNew (proj Nat.eqb b' (trace s)) = Some st /\
+             matches (mkShared r' p' i' (trace s), ts') b' st.
 Proof.
-  intros s ts s' ts' b' [st [Hc Hm]] Htr Hp Hr Hn. exists st. split.
-  - rewrite Htr; auto.
-  - eapply matches_frame; eauto.
+  intros s ts r' p' i' ts' b' [st [Hc Hm]] Hp Hr Hn. exists st. split; auto.
+  eapply matches_frame; eauto.
+Qed.
+
+Lemma invD_same : forall s ts ts' b',
+  (exists st, check_buf BNew (proj Nat.eqb b' (trace s)) = Some st /\ matches (s, ts) b' st) ->
+  npend b' ts' = npend b' ts ->
+  exists st, check_buf BNew (proj Nat.eqb b' (trace s)) = Some st /\ matches (s, ts') b' st.
+Proof.
+  intros s ts ts' b' [st [Hc Hm]] Hn. exists st. split; auto.
+  eapply matches_frame; eauto.
 Qed.
 
 Ltac upd_cases b' b :=
@@ -277,7 +285,7 @@ Proof.
         -- rewrite proj_snoc_eq. eapply check_buf_snoc; [exact Hc|].
            unfold matches in Hm; simpl in Hm. destruct st as [| |[|] n| |]; simpl; try reflexivity; try lia; try contradiction.
         -- unfold matches; simpl. rewrite !upd_eq, Hnp. lia.
-      * eapply invD_other with (s := s) (ts := ts); simpl; eauto; rewrite ?upd_neq; auto.
+      * apply invD_other with (ts := ts); auto; rewrite ?upd_neq; auto.
   - (* Ref *)
     inversion He; subst s' l'; clear He.
     assert (Hau : after_unref l = None).
@@ -298,7 +306,7 @@ Proof.
         exists (BLive true (S n)). split.
         -- rewrite proj_snoc_eq. eapply check_buf_snoc; [exact Hc|]. reflexivity.
         -- unfold matches; simpl. rewrite !upd_eq, Hnp. lia.
-      * eapply invD_other with (s := s) (ts := ts); simpl; eauto; rewrite ?upd_neq; auto.
+      * apply invD_other with (ts := ts); auto; rewrite ?upd_neq; auto.
   - (* Unref *)
     inversion He; subst s' l'; clear He.
     assert (Hau : after_unref l = None).
@@ -332,7 +340,7 @@ Proof.
         -- exists (BLive true (S m)). split.
            ++ rewrite proj_snoc_eq. eapply check_buf_snoc; [exact Hc|]. reflexivity.
            ++ unfold matches; simpl. rewrite !upd_eq, Hnpb, Hrc. simpl. lia.
-      * eapply invD_other with (s := s) (ts := ts); simpl; eauto; rewrite ?upd_neq; auto.
+      * apply invD_other with (ts := ts); auto; rewrite ?upd_neq; auto.
   - (* Release *)
     destruct (after_unref l) as [[b0 z]|] eqn:Hau; [|simpl in Hwb; contradiction].
     destruct Hwb as [r [Hr Hwb]]. inversion Hr; subst b0 r; clear Hr.
@@ -356,7 +364,7 @@ Proof.
            exists BPooled. split.
            ++ rewrite proj_snoc_eq. eapply check_buf_snoc; [exact Hc|]. reflexivity.
            ++ unfold matches; simpl. rewrite upd_eq. lia.
-        -- eapply invD_other with (s := s) (ts := ts); simpl; eauto; rewrite ?upd_neq; auto.
+        -- apply invD_other with (ts := ts); auto; rewrite ?upd_neq; auto.
     + (* it did not: nothing to do *)
       inversion He; subst s' l'; clear He.
       assert (Hnp : forall b', npend b' (set_nth t ({| held := held l; after_unref := None |}, rest) ts) = npend b' ts).
@@ -365,7 +373,7 @@ Proof.
       * intros b'. rewrite Hnp. apply HA.
       * intros b'. destruct (Hset b') as [H1 _]. simpl in H1. specialize (HB b'). lia.
       * apply twb_set; [exact HC|]. unfold twb; simpl. exact Hwb.
-      * intros b'. eapply invD_silent with (s := s) (ts := ts); simpl; eauto.
+      * intros b'. apply invD_same with (ts := ts); auto.
   - (* Use *)
     inversion He; subst s' l'; clear He.
     assert (Hau : after_unref l = None).
@@ -377,7 +385,7 @@ Proof.
     + intros b'. rewrite Hnp. apply HA.
     + intros b'. destruct (Hset b') as [H1 _]. specialize (HB b'). lia.
     + apply twb_set; [exact HC|]. unfold twb; simpl. rewrite Hau. exact Hwb.
-    + intros b'. eapply invD_silent with (s := s) (ts := ts); simpl; eauto.
+    + intros b'. apply invD_same with (ts := ts); auto.
   - (* Send *)
     inversion He; subst s' l'; clear He.
     assert (Hau : after_unref l = None).
@@ -390,7 +398,7 @@ Proof.
     + intros b'. destruct (Hset b') as [H1 _]. simpl in H1. specialize (HB b'). upd_cases b' b; rewrite ?upd_eq in H1; [lia|].
       rewrite upd_neq in H1 by assumption. lia.
     + apply twb_set; [exact HC|]. unfold twb; simpl. rewrite Hau. exact Hwb.
-    + intros b'. eapply invD_silent with (s := s) (ts := ts); simpl; eauto.
+    + intros b'. apply invD_silent with (ts := ts); auto.
   - (* Recv *)
     destruct (Nat.leb_spec 1 (inflight s b)) as [Hfl|]; [|discriminate].
     inversion He; subst s' l'; clear He.
@@ -404,5 +412,110 @@ Proof.
     + intros b'. destruct (Hset b') as [H1 _]. simpl in H1. specialize (HB b'). upd_cases b' b; rewrite ?upd_eq in H1; [lia|].
       rewrite upd_neq in H1 by assumption. lia.
     + apply twb_set; [exact HC|]. unfold twb; simpl. rewrite Hau. exact Hwb.
-    + intros b'. eapply invD_silent with (s := s) (ts := ts); simpl; eauto.
+    + intros b'. apply invD_silent with (ts := ts); auto.
 Qed.
+
+(** the initial configuration satisfies the invariant when every program is
+    well-bracketed (starting with no reference held) *)
+Lemma init_inv : forall progs,
+  Forall (wb (fun _ => 0)) progs -> Inv (init progs).
+Proof.
+  intros progs Hwb. unfold init.
+  assert (Hz : forall (f : rthread -> nat), (forall p, f (local0, p) = 0) ->
+               sum_map f (map (fun p => (local0, p)) progs) = 0).
+  { intros f Hf. apply sum_map_zero. intros x Hin. apply in_map_iff in Hin.
+    destruct Hin as [p [<- _]]. apply Hf. }
+  constructor; simpl.
+  - intros b. unfold npend. rewrite Hz; [reflexivity|]. intros p; reflexivity.
+  - intros b. unfold theld. rewrite Hz; [reflexivity|]. intros p; reflexivity.
+  - intros t th Hn. apply nth_error_In in Hn. apply in_map_iff in Hn.
+    destruct Hn as [p [<- Hin]]. unfold twb; simpl.
+    rewrite Forall_forall in Hwb. apply Hwb; exact Hin.
+  - intros b. exists BNew. split; reflexivity.
+Qed.
+
+(** what the invariant gives in a configuration: the statement of safety *)
+Definition next_ok (c : rconfig) (l : local) (a : act) : Prop :=
+  match a with
+  | Use b | Ref b | Unref b | Send b =>
+      (* the acting thread holds a reference to a live buffer that is not in the pool *)
+      pool (fst c) b = 0 /\ 1 <= rc (fst c) b /\ 1 <= held l b
+  | Release b =>
+      (* the buffer is put only when its count is 0 and nobody holds or carries a reference *)
+      after_unref l = Some (b, true) ->
+      rc (fst c) b = 0 /\ pool (fst c) b = 0 /\ theld b (snd c) = 0 /\ inflight (fst c) b = 0
+  | Get _ | Recv _ => True
+  end.
+
+Definition safe (c : rconfig) : Prop :=
+  (forall b, pool (fst c) b <= 1) /\
+  (forall b, pool (fst c) b = 1 ->
+     rc (fst c) b = 0 /\ theld b (snd c) = 0 /\ inflight (fst c) b = 0 /\ npend b (snd c) = 0) /\
+  (forall t l a rest, nth_error (snd c) t = Some (l, a :: rest) -> next_ok c l a) /\
+  trace_ok Nat.eqb (trace (fst c)).
+
+Lemma inv_safe : forall c, Inv c -> safe c.
+Proof.
+  intros [s ts] [HA HB HC HD]; simpl in *. unfold safe; simpl.
+  split; [|split; [|split]].
+  - intros b. specialize (HA b). lia.
+  - intros b Hp. specialize (HA b). specialize (HB b). pose proof (nz_spec (rc s b)). lia.
+  - intros t l a rest Hn. pose proof (HC t _ Hn) as Hwb. unfold twb in Hwb; simpl in Hwb.
+    pose proof (held_le_theld ts t l (a :: rest)) as Hle.
+    pose proof (npend_l_le ts t l (a :: rest)) as Hnle.
+    assert (Hlive : forall b, 1 <= held l b -> pool s b = 0 /\ 1 <= rc s b /\ 1 <= held l b).
+    { intros b Hh. specialize (Hle b Hn). specialize (HA b). specialize (HB b).
+      pose proof (nz_spec (rc s b)). lia. }
+    destruct a as [b|b|b|b|b|b|b]; simpl; auto.
+    + revert Hwb. destruct (after_unref l) as [[b0 z]|]; [intros [r [Hr _]]; discriminate Hr|].
+      intros [Hh _]. auto.
+    + revert Hwb. destruct (after_unref l) as [[b0 z]|]; [intros [r [Hr _]]; discriminate Hr|].
+      destruct rest as [|[b1|b1|b1|b1|b1|b1|b1] rest']; simpl; try contradiction.
+      intros [_ [Hh _]]. auto.
+    + intros Hau. specialize (Hnle b Hn). unfold npend_l in Hnle. rewrite Hau, Nat.eqb_refl in Hnle.
+      specialize (HA b). specialize (HB b). pose proof (nz_spec (rc s b)). lia.
+    + revert Hwb. destruct (after_unref l) as [[b0 z]|]; [intros [r [Hr _]]; discriminate Hr|].
+      intros [Hh _]. auto.
+    + revert Hwb. destruct (after_unref l) as [[b0 z]|]; [intros [r [Hr _]]; discriminate Hr|].
+      intros [Hh _]. auto.
+  - intros b. destruct (HD b) as [st [Hc _]]. exists st; exact Hc.
+Qed.
+
+(** P1, all interleavings: every configuration of every run of any number of
+    well-bracketed threads is safe. *)
+Theorem refcount_safe : forall progs sched c,
+  Forall (wb (fun _ => 0)) progs ->
+  run rstep (init progs) sched = Some c -> safe c.
+Proof.
+  intros progs sched c Hwb Hrun. apply inv_safe.
+  eapply (invariant_run _ _ rstep Inv); [|apply init_inv; exact Hwb|exact Hrun].
+  intros c0 t c1 HI Hs. eapply step_inv; eauto.
+Qed.
+
+(** hence the recorded trace of every run is accepted by the trace checker *)
+Corollary refcount_trace_accepted : forall progs sched c,
+  Forall (wb (fun _ => 0)) progs ->
+  run rstep (init progs) sched = Some c ->
+  exists m, check_trace Nat.eqb (trace (fst c)) = inl m.
+Proof.
+  intros progs sched c Hwb Hrun. apply (check_trace_complete nat Nat.eqb Nat_eqb_spec').
+  apply (refcount_safe progs sched c Hwb Hrun).
+Qed.
+
+(** facts about the automaton the checker runs: a put is accepted only in the
+    state reached by the unref that took a pooled buffer from one reference
+    to none, and after it only a get is accepted *)
+Lemma put_only_at_zero : forall s s', buf_step s EPut = Some s' -> s = BZero /\ s' = BPooled.
+Proof. intros [| |p n| |] s' H; simpl in H; try discriminate. inversion H; auto. Qed.
+
+Lemma zero_only_by_last_unref : forall s e, buf_step s e = Some BZero -> s = BLive true 1 /\ e = EUnref.
+Proof.
+  intros [| |p n| |] [| | |] H; simpl in H; try discriminate.
+  destruct n as [|[|m]]; try discriminate. destruct p; inversion H. auto.
+Qed.
+
+Lemma pooled_only_get : forall e s', buf_step BPooled e = Some s' -> e = EGet /\ s' = BLive true 1.
+Proof. intros [| | |] s' H; simpl in H; try discriminate. inversion H; auto. Qed.
+
+Lemma count_never_negative : forall p e s', buf_step (BLive p 0) e = Some s' -> e = ERef.
+Proof. intros p [| | |] s' H; simpl in H; try discriminate; reflexivity. Qed.
